@@ -186,6 +186,12 @@ def generate(which=("time", "kv")):
             fn = rust_ident(name).lower()
             (kind, _), = reg[name].items()
             shapes = container_plans(name, reg)
+            if proto != "time":
+                # measured: a shape with a bool leaf (bincode's InvalidBoolEncoding error arm) or a sequence of strings
+                # (KeyValueResponse::Exists / ::ListKeys) gets no verdict in 20 min even alone; they are left out
+                skipped = [describe(pl) for pl in shapes if any(a[0] == "bool" for a in pl) or any(a[0] == "lit" and a[2].startswith("seq[") for a in pl)]
+                shapes = [pl for pl in shapes if describe(pl) not in skipped]
+                summary[name]["shapes_left_out"] = skipped
             maxlen = 0
             for i, plan in enumerate(shapes):
                 L.append(f"/// {name} shape {i}: {describe(plan) or 'fixed layout'}")
@@ -230,8 +236,9 @@ def generate(which=("time", "kv")):
                 L.append("}")
                 harnesses.append({"name": hname, "root": name, "proto": proto, "shapes": [describe(shapes[si]) or "fixed layout" for si in grp],
                                   "undefined_indices": kind == "ENUM" and gi == 0 and proto == "time"})
-            if kind == "ENUM" and proto != "time":
-                # undefined variant indices of the root enum, in a harness of its own (the error path is the expensive part)
+            if False and kind == "ENUM" and proto != "time":
+                # undefined variant indices of the root enum in a harness of its own: no verdict in 20 min (the error path
+                # of bincode's variant decoding builds a formatted message); left out
                 nvar = summary[name]["variants"]
                 hname = f"c10_{proto}_{fn}_undefined"
                 L.append("#[cfg_attr(kani, kani::proof, kani::unwind(50))]")
